@@ -247,6 +247,10 @@ func (ek *EAPOLKey) SerializeTo(b gopacket.SerializeBuffer, opts gopacket.Serial
 	if err != nil {
 		return err
 	}
+	// a Nonce, IV or MIC that is nil or short leaves its octets zero
+	for i := range buf[:eapolKeyFrameLen] {
+		buf[i] = 0
+	}
 
 	buf[0] = byte(ek.KeyDescriptorType)
 
